@@ -21,6 +21,7 @@ from harness import mps_common as mc
 TOL = 1e-9
 
 DUP_SIG = 'C08.ext.correlation_function[a site listed more than once in sites1/sites2]'
+FS_SIG = 'C08.ext.entropy.entanglement_entropy_segment[first_site given as a plain int]'
 IDX_SIG = 'C08.ext.expectation_value.ops-indexing[explicit sites, one operator per requested site as in the doc-string example]'
 
 
@@ -52,7 +53,7 @@ def dec_list(vs):
 
 def gen_cases(rng, n, quick):
     cases = []
-    subs = ['corr', 'repeat', 'sample', 'args', 'corr', 'repeat', 'sample', 'args', 'corr', 'repeat']
+    subs = ['corr', 'repeat', 'entropy', 'sample', 'args', 'corr', 'entropy', 'repeat', 'sample', 'args', 'corr', 'repeat', 'entropy']
     k = 0
     while len(cases) < n:
         sub = subs[k % len(subs)]
@@ -86,6 +87,15 @@ def gen_cases(rng, n, quick):
                     ket['form'] = rng.choice([None, 'A', 'B', 'C'])
                     ket['normalize'] = True
                 case.update(ket=ket)
+        elif sub == 'entropy':
+            # random entangled states: from_full of random vectors, all site kinds
+            ket = mc.gen_case(rng, ['full'], Lmax=5 if quick else 6, dmax=96 if quick else 256)
+            ket['form'] = rng.choice([None, 'A', 'B', 'C'])
+            ket['normalize'] = True
+            ket['density'] = 1.0
+            if len(ket['sites']['kinds']) < 2:
+                continue
+            case.update(ket=ket)
         elif sub == 'repeat':
             # fermionic chains: finite (all conserve options) and infinite unit cells (terms beyond the first cell)
             if rng.random() < 0.5:
@@ -990,6 +1000,143 @@ def eval_repeat(case):
     return dict(oracle=oracle, lines=[], nontrivial=max(psi.chi) > 1, hist=hist)
 
 
+# ----------------------------------------------------------------------------------------------------------------
+# entropies / mutual information / charge statistics with every optional numeric argument drawn
+
+
+def np_entropy(p, n):
+    p = np.asarray(p).real
+    p = p[p > 1e-30]
+    if n == 1:
+        return float(-np.sum(p * np.log(p)))
+    if n == np.inf:
+        return float(-np.log(np.max(p)))
+    return float(np.log(np.sum(p ** n)) / (1.0 - n))
+
+
+def eval_entropy(case):
+    rnd = random.Random(case['seed'])
+    oracle = []
+    stk = mc.build_state(case['ket'])
+    psi = stk['psi']
+    L = psi.L
+    dims = [s.dim for s in psi.sites]
+    vec = mc.np_state(psi, with_norm=False).reshape(-1)
+    vec = vec / np.linalg.norm(vec)
+    hist = ['ext=entropy', 'L=%d' % L]
+
+    def rdm(keep):
+        t = vec.reshape(dims)
+        other = [i for i in range(L) if i not in keep]
+        m = np.transpose(t, list(keep) + other).reshape(int(np.prod([dims[i] for i in keep])), -1)
+        return m @ m.conj().T
+
+    def S(keep, n):
+        return np_entropy(np.linalg.eigvalsh(rdm(sorted(keep))), n)
+
+    for n in rnd.sample([1, 2, 0.5, 3, np.inf, 1.5], 3):
+        tol = 1e-7
+        hist.append('ext.entropy.n=%s' % n)
+        # mutinf_two_site(max_range, n)
+        mr = rnd.choice([None, 1, 2, L])
+        try:
+            coords, mi = psi.mutinf_two_site(max_range=mr, n=n)
+            want = [S([i], n) + S([j], n) - S([i, j], n) for i, j in coords]
+            if len(mi) and not close(np.array(mi), np.array(want), tol):
+                k = int(np.argmax(np.abs(np.array(mi) - np.array(want))))
+                oracle.append(('C08.ext.entropy.mutinf_two_site[n=%s]' % ('1' if n == 1 else 'Renyi'),
+                               'n=%s max_range=%s pair %s got %r want %r' % (n, mr, coords[k].tolist(), mi[k], want[k])))
+        except Exception as e:
+            oracle.append(('C08.ext.entropy.mutinf_two_site.raises:%s' % type(e).__name__, 'n=%s: %r' % (n, e)))
+        # entanglement_entropy(n, bonds)
+        bonds = rnd.choice([None, rnd.randint(1, L - 1), sorted(rnd.sample(range(1, L), rnd.randint(1, L - 1)))])
+        try:
+            got = psi.entanglement_entropy(n=n, bonds=bonds, for_matrix_S=rnd.random() < 0.3)
+            bl = list(range(1, L)) if bonds is None else ([bonds] if isinstance(bonds, int) else bonds)
+            want = [S(list(range(b)), n) for b in bl]
+            if not close(np.array(got), np.array(want), tol):
+                oracle.append(('C08.ext.entropy.entanglement_entropy', 'n=%s bonds=%s got %s want %s' % (n, bonds, got, want)))
+        except Exception as e:
+            oracle.append(('C08.ext.entropy.entanglement_entropy.raises:%s' % type(e).__name__, 'n=%s bonds=%s: %r' % (n, bonds, e)))
+        # entanglement_entropy_segment(segment, first_site, n)
+        seg = sorted(rnd.sample(range(min(L, 3)), rnd.randint(1, min(L, 3) - 0 if L < 3 else 2)))
+        if seg[0] != 0 and rnd.random() < 0.7:
+            seg = [x - seg[0] for x in seg]
+        fs = rnd.choice([None, rnd.randint(0, L - 1 - seg[-1]), sorted(rnd.sample(range(L - seg[-1]), rnd.randint(1, L - seg[-1])))])
+        try:
+            try:
+                got = psi.entanglement_entropy_segment(segment=seg, first_site=fs, n=n)
+            except TypeError as e:
+                if not isinstance(fs, int):
+                    raise
+                # documented as `None | (iterable of) int`
+                oracle.append((FS_SIG, 'segment=%s first_site=%r n=%s: %r' % (seg, fs, n, e)))
+                got = psi.entanglement_entropy_segment(segment=seg, first_site=[fs], n=n)
+            fl = list(range(L - seg[-1])) if fs is None else ([fs] if isinstance(fs, int) else fs)
+            want = [S([i + j for j in seg], n) for i in fl]
+            if not close(np.array(got), np.array(want), tol):
+                oracle.append(('C08.ext.entropy.entanglement_entropy_segment', 'n=%s segment=%s first_site=%s got %s want %s' % (n, seg, fs, got, want)))
+        except Exception as e:
+            oracle.append(('C08.ext.entropy.entanglement_entropy_segment.raises:%s' % type(e).__name__, 'n=%s segment=%s first_site=%s: %r' % (n, seg, fs, e)))
+        # entanglement_entropy_segment2(segment, n)
+        seg2 = sorted(rnd.sample(range(L), rnd.randint(1, min(L, 3))))
+        try:
+            got = psi.entanglement_entropy_segment2(seg2, n=n)
+            if abs(got - S(seg2, n)) > tol * (1 + abs(got)):
+                oracle.append(('C08.ext.entropy.entanglement_entropy_segment2', 'n=%s segment=%s got %r want %r' % (n, seg2, got, S(seg2, n))))
+        except Exception as e:
+            oracle.append(('C08.ext.entropy.entanglement_entropy_segment2.raises:%s' % type(e).__name__, 'n=%s segment=%s: %r' % (n, seg2, e)))
+    # entanglement_spectrum(by_charge)
+    try:
+        spec = psi.entanglement_spectrum(by_charge=False)
+        for b, sp in zip(range(1, L), spec):
+            p = np.sort(np.linalg.eigvalsh(rdm(list(range(b)))))[::-1]
+            p = p[p > 1e-14]
+            got = np.exp(-np.sort(np.asarray(sp)))
+            got = got[got > 1e-14]
+            if len(got) != len(p) or not close(got, p, 1e-8):
+                oracle.append(('C08.ext.entropy.entanglement_spectrum', 'bond %d got %s want %s' % (b, got[:5], p[:5])))
+                break
+        spc = psi.entanglement_spectrum(by_charge=True)
+        for b, (sp, byc) in enumerate(zip(spec, spc)):
+            allv = np.sort(np.concatenate([np.asarray(v) for _, v in byc])) if len(byc) else np.array([])
+            if not close(allv, np.sort(np.asarray(sp)), 1e-10):
+                oracle.append(('C08.ext.entropy.entanglement_spectrum.by_charge', 'bond %d' % (b + 1)))
+                break
+    except Exception as e:
+        oracle.append(('C08.ext.entropy.entanglement_spectrum.raises:%s' % type(e).__name__, repr(e)))
+    # charge statistics on every bond
+    if psi.chinfo.qnumber > 0 and all(np.all(B.qtotal == 0) for B in psi._B) and np.all(psi._B[0].get_leg('vL').charges == 0):
+        amp2 = np.abs(vec.reshape(dims)) ** 2
+        qs = [s_.leg.to_qflat() for s_ in psi.sites]
+        for b in range(0, L + 0):
+            try:
+                charges, ps = psi.probability_per_charge(b)
+            except ValueError as e:
+                if 'not blocked' in str(e):
+                    continue
+                oracle.append(('C08.ext.entropy.probability_per_charge.raises', 'bond %d: %r' % (b, e)))
+                continue
+            want = {}
+            for idx in itertools.product(*[range(d) for d in dims]):
+                if amp2[idx] == 0:
+                    continue
+                q = tuple(int(x) for x in psi.chinfo.make_valid(np.sum([qs[i][idx[i]] for i in range(b)], axis=0) if b else None))
+                want[q] = want.get(q, 0.0) + amp2[idx]
+            gotd = {}
+            for c, p_ in zip(charges, ps):
+                gotd[tuple(int(x) for x in c)] = gotd.get(tuple(int(x) for x in c), 0.0) + p_
+            keys = sorted(set(want) | set(k2 for k2, v in gotd.items() if v > 1e-12))
+            if not close(np.array([gotd.get(k2, 0.0) for k2 in keys]), np.array([want.get(k2, 0.0) for k2 in keys]), 1e-9):
+                oracle.append(('C08.ext.entropy.probability_per_charge', 'bond %d charges %s' % (b, keys)))
+            if all(m == 1 for m in psi.chinfo.mod):
+                wavg = sum(np.array(k2) * v for k2, v in want.items())
+                wvar = sum((np.array(k2) - wavg) ** 2 * v for k2, v in want.items())
+                if not close(psi.average_charge(b), wavg, 1e-9) or not close(psi.charge_variance(b), wvar, 1e-9):
+                    oracle.append(('C08.ext.entropy.average_charge/charge_variance', 'bond %d' % b))
+    return dict(oracle=oracle, lines=[], nontrivial=max(psi.chi) > 1, hist=hist)
+
+
 def eval_ext(case):
     sub = case['sub']
     if sub == 'corr':
@@ -998,6 +1145,8 @@ def eval_ext(case):
         return eval_sample(case)
     if sub == 'repeat':
         return eval_repeat(case)
+    if sub == 'entropy':
+        return eval_entropy(case)
     return eval_args(case)
 
 
